@@ -286,3 +286,30 @@ Proof.
            ++ right. exists k, v. split. lia. unfold sls1. rewrite nth_set_nth_neq by lia.
               replace (S base + k)%nat with (base + S k)%nat by lia. split; auto. f_equal. lia.
 Qed.
+
+Lemma In_fst_ins : forall x y l, In x (map fst (ins y l)) <-> x = fst y \/ In x (map fst l).
+Proof.
+  intros x y l. rewrite !in_map_iff. split.
+  - intros (z & E & H). apply In_ins in H as [->|H]; auto. right. exists z. auto.
+  - intros [->|(z & E & H)]. exists y. split; auto. apply In_ins. auto. exists z. split; auto. apply In_ins. auto.
+Qed.
+Lemma cb_push_nodup : forall vs t sls base i ps e, NoDup (map fst ps) ->
+  (forall k, (k < length vs)%nat -> ~ In (i + Z.of_nat k) (map fst ps)) ->
+  NoDup (map fst (snd (fst (cb_push t sls base i vs ps e)))).
+Proof.
+  induction vs as [|v vs IH]; intros t sls base i ps e ND NI; cbn [cb_push]; auto.
+  apply IH.
+  - apply NoDup_ins; auto. cbn. specialize (NI 0%nat ltac:(cbn; lia)). replace (i + Z.of_nat 0) with i in NI by lia. auto.
+  - intros k Hk H. apply In_fst_ins in H as [H|H]. cbn in H. lia.
+    apply (NI (S k)). cbn; lia. replace (i + Z.of_nat (S k)) with (i + 1 + Z.of_nat k) by lia. auto.
+Qed.
+Lemma cb_pop_nodup : forall n t sls base i ds g e, NoDup (map fst ds) ->
+  (forall k, (k < n)%nat -> ~ In (i + Z.of_nat k) (map fst ds)) ->
+  NoDup (map fst (snd (fst (fst (cb_pop t sls base i n ds g e))))).
+Proof.
+  induction n as [|n IH]; intros t sls base i ds g e ND NI; cbn [cb_pop]; auto.
+  apply IH.
+  - apply NoDup_ins; auto. cbn. specialize (NI 0%nat ltac:(lia)). replace (i + Z.of_nat 0) with i in NI by lia. auto.
+  - intros k Hk H. apply In_fst_ins in H as [H|H]. cbn in H. lia.
+    apply (NI (S k)). lia. replace (i + Z.of_nat (S k)) with (i + 1 + Z.of_nat k) by lia. auto.
+Qed.
